@@ -36,7 +36,7 @@ def raw_name(draw, max_len=6):
 
 # names that mean something to Python, NumPy or SymPy when text is (wrongly) re-interpreted
 _RISKY_NAMES = ["j", "J", "inf", "nan", "Infinity", "e", "E", "I", "pi2", "None", "lambda", "oo", "zoo", "S", "N", "p0_offset", "p12b", "p1a",
-                "array2", "intx", "q", "qa", "Measur", "x_0_0", "a_0_1"]
+                "array2", "intx", "q", "qa", "Measur", "x_0_0", "a_0_1", "q0_gain", "q1x", "q12scale", "q0q", "q2_"]
 
 
 def name_strategy(pool=_NAME_POOL):
